@@ -4,7 +4,7 @@ from .progfam import *
 
 def run(tier, seed):
     return run_prog_property(
-        "C04", ["static", "compile", "scoping"], tier, seed,
+        "C04", ["static", "compile", "scoping"], tier, seed, trace_fams=("static",),
         rule="MC_Static.tla: six program schemas (let pattern/type/expression/use; scopes and definition order; witnesses, "
              "parameters, main shape and items; calls with builtin and custom signatures, fold/for_while, casts, jets; match; "
              "containers and literals) whose slots range over alternative pools - every near miss differs from a well-formed "
